@@ -190,7 +190,7 @@ func checkFaithful(c *vt.C, script any, k *compKind, typed reflect.Value, eff ma
 			ev, present := effLookup(eff, append(append([]string{}, effPrefix...), x.P...))
 			if d := checkEff(ev, present, tv, x.V); d != "" {
 				sig := "eff/" + where + "::" + x.key()
-				if x.V.K == "text" {
+				if x.V.K == "text" && present && ev != nil {
 					sig = "eff-text/" + n.Type.String() // a property of the type's marshalling, wherever it is used
 				}
 				f := vt.Failf(sig, "%s %v: wrote %s = %s (typed value correct), but %s", where, effPrefix, x.key(), x.V, d)
